@@ -5,7 +5,7 @@
    nothing.  Statements only; every proof is [exact <lemma>]. *)
 From Coq Require Import List NArith Bool.
 Import ListNotations.
-From SAV.sql Require Import Dispatch DispatchProofs DispatchFrag DispatchFragProofs.
+From SAV.sql Require Import Dispatch DispatchProofs DispatchFrag DispatchFragProofs DispatchCte DispatchCteProofs.
 From SAV.sql Require Ident IdentProofs.
 
 (* ---------------- (a) dispatch totality ---------------- *)
@@ -106,6 +106,36 @@ Print Assumptions c22_empty_identifier_indexerror_refuted.
 Theorem c22_nonempty_identifier_guarded : forall p c r, Ident.requires_quotes p (c :: r) <> Ident.RaiseIndexError.
 Proof. exact IdentProofs.requires_quotes_nonempty. Qed.
 Print Assumptions c22_nonempty_identifier_guarded.
+
+(* ---------------- the CTE registry of visit_cte (ctes_by_level_name): the "nest_here" move ---------------- *)
+(* delete-then-set registers the CTE under its new (level, name) key for EVERY pair of old / new keys, equal ones
+   included (a CTE pinned at the level where it was first seen): the later  ctes_by_level_name[cte_level_name]  finds it *)
+Theorem c22_cte_move_registers : forall old new cte m, reg_get new (move old new cte m) = Some cte.
+Proof. exact move_registers. Qed.
+Print Assumptions c22_cte_move_registers.
+
+Theorem c22_cte_move_unregisters_old : forall old new cte m, lkey_eqb old new = false -> reg_get old (move old new cte m) = None.
+Proof. exact move_unregisters_old. Qed.
+Print Assumptions c22_cte_move_unregisters_old.
+
+Theorem c22_cte_move_frame : forall old new cte m k, lkey_eqb k old = false -> lkey_eqb k new = false ->
+  reg_get k (move old new cte m) = reg_get k m.
+Proof. exact move_frame. Qed.
+Print Assumptions c22_cte_move_frame.
+
+(* the two statements in the other order differ from the code exactly on equal keys, where the CTE is lost (KeyError) *)
+Theorem c22_cte_move_swapped_loses_equal_key : forall k cte m, reg_get k (move_swapped k k cte m) = None.
+Proof. exact move_swapped_loses_equal_key. Qed.
+Print Assumptions c22_cte_move_swapped_loses_equal_key.
+
+Theorem c22_cte_move_swapped_same_when_distinct : forall old new cte m k, lkey_eqb old new = false ->
+  reg_get k (move_swapped old new cte m) = reg_get k (move old new cte m).
+Proof. exact move_swapped_same_when_distinct. Qed.
+Print Assumptions c22_cte_move_swapped_same_when_distinct.
+
+Example c22_ex_cte_move : reg_get (1, 7)%N (move (1, 7)%N (1, 7)%N 42%N [((1, 7), 42); ((1, 8), 43)]%N) = Some 42%N
+  /\ reg_get (1, 8)%N (move (1, 7)%N (2, 7)%N 42%N [((1, 7), 42); ((1, 8), 43)]%N) = Some 43%N.
+Proof. split; vm_compute; reflexivity. Qed.
 
 (* ---------------- non-vacuity on a small concrete table (DispatchProofs.sample) ---------------- *)
 Example c22_ex_covers : covers sample = true /\ tables_ok sample = true /\ In dA (dialects sample) /\ In dB (dialects sample).
